@@ -195,6 +195,41 @@ func c17Oracle(in c17In) probe.Outcome {
 				return probe.Fail("%s: long-lived and fresh SA decode garbage differently", step)
 			}
 			rejected = eL != nil
+		case "unprotect-authentic-malformed":
+			// a datagram whose checksum is RIGHT (a peer holding the keys, or a buggy one) but whose protected part is not: an
+			// SK body of arbitrary octets (too short, not a multiple of the block size), or a well-sized ciphertext that decrypts
+			// to an impossible pad length / to octets that are no payload chain. It gets past the checksum and fails later.
+			hdr := ref.Header28(5, 6, 2, 0, 37, 0x08, uint32(i))
+			var w []byte
+			if op.Pos%3 == 0 {
+				w, err = ref.ProtectBody(in.Suite.Ref(), in.Keys.Dir(!op.AsI), hdr, 33, op.Garbage, 0)
+			} else {
+				pt := append([]byte(nil), op.Garbage...)
+				for len(pt)%16 != 15 {
+					pt = append(pt, byte(len(pt)))
+				}
+				padOctet := byte(0xff) // impossible: longer than the plaintext
+				if op.Pos%3 == 2 {
+					padOctet = 0 // fine; the octets in front of it are no payload chain
+				}
+				pt = append(pt, padOctet)
+				w, err = ref.ProtectPlain(in.Suite.Ref(), in.Keys.Dir(!op.AsI), hdr, 33, pt, op.IV, 0)
+			}
+			if err != nil {
+				return probe.Fail("HARNESS: %v", err)
+			}
+			gL, eL := libUnprotect(w, L, op.AsI, op.WithHdr)
+			gF, eF := libUnprotect(w, F, op.AsI, op.WithHdr)
+			if probe.IsPanic(eL) || errors.Is(eL, errNeitherNor) {
+				return probe.Fail("%s: %v", step, eL)
+			}
+			if (eL == nil) != (eF == nil) {
+				return probe.Fail("%s: long-lived SA (%v) and fresh SA (%v) disagree on an authentic but malformed message", step, eL, eF)
+			}
+			if eL == nil && model.Diff(gL, gF) != "" {
+				return probe.Fail("%s: long-lived and fresh SA decode an authentic but malformed message differently", step)
+			}
+			rejected = eL != nil
 		case "derive-child":
 			kL, err := deriveChild(L, op.ChildE, op.ChildI, op.Nonce)
 			if err != nil {
@@ -225,7 +260,7 @@ func c17Oracle(in c17In) probe.Outcome {
 
 func c17GenOp(t *rapid.T, small gen.Opts) c17Op {
 	op := c17Op{AsI: rapid.Bool().Draw(t, "asI"), WithHdr: rapid.Bool().Draw(t, "withhdr")}
-	switch gen.Pick(t, "op", 3, 3, 2, 2, 2, 2) {
+	switch gen.Pick(t, "op", 3, 3, 2, 2, 2, 2, 2) {
 	case 0:
 		op.Op, op.Msg = "protect", gen.Message(t, small)
 	case 1:
@@ -249,6 +284,12 @@ func c17GenOp(t *rapid.T, small gen.Opts) c17Op {
 		} else {
 			op.Garbage = gen.RawBytes(t, "garbage", 300)
 		}
+	case 6:
+		op.Op = "unprotect-authentic-malformed"
+		op.Garbage = gen.Fill(t, "body", gen.Len(t, "bodylen", 0, 120, 0, 1, 15, 16, 17, 31, 32, 33, 48))
+		op.Pos = rapid.IntRange(0, 2).Draw(t, "class")
+		op.IV = gen.Fill(t, "iv", 16)
+		return op
 	default:
 		op.Op = "derive-child"
 		op.ChildE, op.ChildI = rapid.IntRange(0, 2).Draw(t, "childencr"), rapid.IntRange(0, 3).Draw(t, "childinteg")
